@@ -556,3 +556,19 @@ Theorem c13_code_can_redirect_auth_header_spec : forall hp hn sp sn,
   opt_bytes_eqb hp hn = true /\ (opt_bytes_eqb sp sn = true \/ opt_bytes_eqb sn (Some (s2b "https")) = true).
 Proof. exact gen_can_redirect_auth_header_spec. Qed.
 Print Assumptions c13_code_can_redirect_auth_header_spec.
+
+(* ================================================================== the vector behind the suppression list (translated from the source) *)
+(** [unset_header_list] -- the reading of AmendedRequest::unset_header used in [c13_code_as_new_flow] -- is a capacity test followed by
+    an append; src/util.rs ArrayVec::push, translated, is exactly that on the visible part of a vector of capacity UNSET_CAP
+    (proofs/Gen2_equiv_arrayvec.v). *)
+From Hoot.proofs Require Import Gen2_equiv_arrayvec.
+Theorem c13_code_arrayvec_unset : forall n (arr : list bytes) k,
+  len arr = UNSET_CAP -> n <= len arr ->
+  match unset_header_list (gen_arrayvec_deref bytes n arr) k with
+  | Ok (l', _) => exists arr', gen_arrayvec_push bytes n arr k = Ok (n + 1, arr', tt) /\ len arr' = len arr /\
+                               gen_arrayvec_deref bytes (n + 1) arr' = l'
+  | Panic _ => exists site, gen_arrayvec_push bytes n arr k = Panic site
+  | Err _ => False
+  end.
+Proof. exact gen_arrayvec_push_is_unset. Qed.
+Print Assumptions c13_code_arrayvec_unset.
